@@ -199,8 +199,11 @@ impl TracingEvent {
             match event {
                 TracingEvent::NewCallSite { id, data } => {
                     // Replace metadata ID to be predictable.
+                    // A call site can be announced more than once; keep its first mapping.
                     let new_metadata_id = metadata_id_mapping.len() as MetadataId;
-                    metadata_id_mapping.insert(*id, new_metadata_id);
+                    let new_metadata_id = *metadata_id_mapping
+                        .entry(*id)
+                        .or_insert(new_metadata_id);
                     *id = new_metadata_id;
                     // Normalize file paths to have `/` path delimiters.
                     #[cfg(feature = "std")]
